@@ -92,10 +92,12 @@ package stick
 //@   requires !nilptr(val)
 //@   def svdef: istype(result, "safeValue") ==> sv_inner(result) == unbox(result, "safeValue").val
 //@   ensures wrapped: istype(result, "safeValue")
+// C12: the result is marked safe for every content type given
+//@   ensures safefor: forall i :: 0 <= i && i < len(types) ==> in(unbox(result, "safeValue").safeFor, types[i])
 //@   ensures plain: !isSafe(val) ==> sv_inner(result) == val
 //@   ensures flat: isSafe(val) ==> sv_inner(result) == sv_inner(val)
-//@   loop 1 invariant safeFor != nil
-//@   loop 2 invariant safeFor != nil
+//@   loop 1 invariant safeFor != nil && rangeindex >= -1 && (forall i :: 0 <= i && i <= rangeindex ==> in(safeFor, types[i]))
+//@   loop 2 invariant safeFor != nil && (forall i :: 0 <= i && i < len(types) ==> in(safeFor, types[i]))
 
 // ---------------------------------------------------------------------------------------
 // Layer X — scope stack (exec.go), property C07
